@@ -1169,6 +1169,10 @@ def correspond(ctx, T, grid_defs):
                    "let Ti := fun p : qpt => (fst p - a * snd p * snd p * snd p, snd p)%Q in "
                    "list_eqb (mesh_close tol) (transform_meshes T Ti sb sw sh db dw dh off 1) obs",
                    lambda i: T.get('meshrec')[1][i], defs=QDEFS, shard=8)
+    ctx.corr_check('answer_georeference', I, 'qbbox * Z * Z * option qbbox * (qpt * qpt) * Q', T.get('georef')[0],
+                   "fun c => let '(b, w, h, ext, (otie, oscale), tol) := c in "
+                   "let '(_, (tie, scale)) := wms_map_answer b w h ext in qpt_close tol tie otie && qpt_close tol scale oscale",
+                   lambda i: T.get('georef')[1][i], defs=QDEFS)
     ctx.corr_check('featureinfo_position', I, 'wms_version * wms_version * bool * (Z * Z) * (Z * Z) * (Z * Z)', T.get('infopos')[0],
                    "fun c => let '(cv, uv, ne, wire, internal, up) := c in "
                    "zz_eqb (info_pos_to_111 cv ne wire) internal && zz_eqb (info_pos_to_version uv ne internal) up",
@@ -1969,6 +1973,97 @@ def e2e_featureinfo_transformed(ctx):
         http.HTTPClient.open = orig_open
 
 
+def e2e_srs_extent(ctx, T):
+    """services.wms.bbox_srs with an explicit extent for the SRS of the request: a request that reaches over the extent is
+    cut down in WMSServer.map (third user of bbox_position_in_image), only the part is rendered and pasted back.  PNG and
+    GeoTIFF answers: per-pixel oracle on the picture; for image/tiff the georeference tags must describe the requested
+    rectangle (tie point = upper left corner of the request, pixel scale = request extent / size)."""
+    import mapproxy.client.http as http
+    from PIL import Image
+    rng = ctx.rng
+    up = Upstream()
+    orig_open = http.HTTPClient.open
+    http.HTTPClient.open = lambda self, url, data=None, method=None: up.open(url, data, method)
+    try:
+        for ci in range(ctx.n(3, 12)):
+            gc = make_grid(rng, 's%d' % ci, {'srs': rng.choice(['EPSG:25832', 'EPSG:3857'])})
+            code = gc.conf['srs']
+            conf, info = e2e_conf(rng, gc, 'wms')
+            b = [float(v) for v in gc.bbox]
+            w, h = b[2] - b[0], b[3] - b[1]
+            ext = [b[0] + math.floor(w * rng.choice([0.0, 0.125, 0.2]) * 8) / 8, b[1] + math.floor(h * rng.choice([0.0, 0.125, 0.3]) * 8) / 8,
+                   b[2] - math.floor(w * rng.choice([0.125, 0.25]) * 8) / 8, b[3] - math.floor(h * rng.choice([0.0, 0.2]) * 8) / 8]
+            conf['services']['wms']['bbox_srs'] = [{'srs': code, 'bbox': ext}]
+            conf['services']['wms']['image_formats'] = ['image/png', 'image/tiff']
+            conf['services'].pop('wmts', None)
+            info['extent'] = ext
+            for ri in range(ctx.n(5, 10)):
+                bbox, size, rkind = request_for(rng, gc, aligned=rng.choice(['shifted', 'scaled', 'edge', 'tiles']))
+                if rng.random() < 0.6:
+                    # across a border of the configured extent
+                    cx = rng.choice([ext[0], ext[2]]); cy = rng.choice([ext[1], ext[3], (ext[1] + ext[3]) / 2])
+                    dx = math.floor((cx - (bbox[0] + bbox[2]) / 2) * 8) / 8
+                    dy_ = math.floor((cy - (bbox[1] + bbox[3]) / 2) * 8) / 8
+                    bbox = (bbox[0] + dx, bbox[1] + dy_, bbox[2] + dx, bbox[3] + dy_)
+                if size[0] * size[1] > 300000:
+                    continue
+                fmt = rng.choice(['image/tiff', 'image/tiff', 'image/png'])
+                out_res = (bbox[2] - bbox[0]) / size[0]
+                up.cell = out_res / 2.0
+                up.requests = []
+                try:
+                    app, d = build_app(ctx, conf)
+                except Exception as e:  # noqa
+                    ctx.fail('e2e:config', 'make_wsgi_app failed for a valid configuration: %r' % (e,), {'conf': conf})
+                    break
+                url = wms_url(rng.choice(['1.1.1', '1.3.0']), 'lyr', bbox, size, code, False).replace('FORMAT=image/png', 'FORMAT=' + fmt)
+                rep = {'conf': conf, 'request': url, 'bbox': bbox, 'size': size, 'srs_extent': ext}
+                try:
+                    resp = app.get(url, expect_errors=True)
+                except Exception as e:  # noqa
+                    ctx.fail('e2e:exception', 'request raised %r' % (e,), rep)
+                    continue
+                over = not (ext[0] <= bbox[0] and ext[1] <= bbox[1] and bbox[2] <= ext[2] and bbox[3] <= ext[3])
+                ctx.case(('srs-extent', gc.conf['bbox'], tuple(ext), bbox, size, fmt), True,
+                         {'config': 'bbox_srs extent', 'request': url, 'srs_extent': ext} if ri == 0 else None)
+                ctx.count('e2e:srs_extent %s,%s' % (fmt, 'over the extent' if over else 'inside'))
+                if resp.status_int != 200 or not resp.content_type.startswith('image/'):
+                    full = resp.text if resp.content_type.startswith(('text', 'application')) else ''
+                    if 'too many tiles' in full or 'Invalid BBOX' in full or 'Request too large' in full:
+                        continue
+                    ctx.fail('e2e:error-response', 'status %s %s: %s' % (resp.status, resp.content_type, full[-300:]), rep)
+                    continue
+                maps = [r for r in up.requests if r['kind'] == 'getmap']
+                up_res = max([max((r['bbox'][2] - r['bbox'][0]) / r['size'][0], (r['bbox'][3] - r['bbox'][1]) / r['size'][1]) for r in maps] or [out_res])
+                gb = [float(v) for v in gc.bbox]
+                inside_grid = gb[0] <= bbox[0] and gb[1] <= bbox[1] and bbox[2] <= gb[2] and bbox[3] <= gb[3]
+                stages = (1 if over else 0) + (0 if inside_grid else 1) + (1 if info['meta_buffer'] > 0 else 0)
+                pixel_oracle(ctx, up, resp.body, bbox, size, up_res, ext, None, rep, 'e2e:srs-extent', tol_px=1.5, stages=stages)
+                if fmt == 'image/tiff':
+                    try:
+                        tags = Image.open(io.BytesIO(resp.body)).tag_v2
+                        tie, scale = tuple(tags[33922]), tuple(tags[33550])
+                    except Exception as e:  # noqa
+                        ctx.fail('geotiff:no-tags', 'GeoTIFF answer without georeference tags: %r' % (e,), rep)
+                        continue
+                    rep['geotiff'] = {'tiepoint': tie, 'pixelscale': scale}
+                    want_scale = ((bbox[2] - bbox[0]) / size[0], (bbox[3] - bbox[1]) / size[1])
+                    eps = 1e-9 * max(abs(v) for v in bbox)
+                    if (abs(tie[3] - bbox[0]) > eps or abs(tie[4] - bbox[3]) > eps or tie[0] != 0 or tie[1] != 0
+                            or abs(scale[0] - want_scale[0]) > 1e-9 * want_scale[0] or abs(scale[1] - want_scale[1]) > 1e-9 * want_scale[1]):
+                        ctx.fail('geotiff:wrong-georeference', 'GeoTIFF for bbox %r size %r is tagged with tie point %r and pixel scale %r '
+                                 '(upper left corner %r, scale %r expected): the picture is placed up to %.1f px off by a GIS client'
+                                 % (bbox, size, tie[3:5], scale[:2], (bbox[0], bbox[3]), want_scale,
+                                    max(abs(tie[3] - bbox[0]) / want_scale[0], abs(tie[4] - bbox[3]) / want_scale[1])), rep)
+                    # model: rendered sub query is not observable from outside; the tags are
+                    if over or True:
+                        T.add('georef', '(%s, %d, %d, Some %s, ((%s, %s), (%s, %s)), %s)' % (
+                            qbb(bbox), size[0], size[1], qbb(ext), qlit(tie[3]), qlit(tie[4]), qlit(scale[0]), qlit(scale[1]),
+                            qlit(qtol(*bbox) if True else 0)), {'request': url, 'srs_extent': ext, 'tiepoint': tie, 'pixelscale': scale})
+    finally:
+        http.HTTPClient.open = orig_open
+
+
 def e2e_reprojected(ctx):
     """EPSG:3857 <-> EPSG:4326: cache in one SRS, request in the other (MESH path of ImageTransformer), and a WMS
     source that only supports the other SRS (source-side reprojection).  Oracle only (PROJ is not modelled)."""
@@ -2196,6 +2291,7 @@ def run(ctx):
     grid_defs = run_pure(ctx, T)
     for name, f in [('same_srs', lambda: e2e_same_srs(ctx, T, grid_defs)), ('featureinfo', lambda: e2e_featureinfo(ctx, T, grid_defs)),
                     ('featureinfo_transformed', lambda: e2e_featureinfo_transformed(ctx)),
+                    ('srs_extent', lambda: e2e_srs_extent(ctx, T)),
                     ('reprojected', lambda: e2e_reprojected(ctx))]:
         try:
             f()
